@@ -1268,11 +1268,15 @@ class Wordnet:
                             wn.WnWarning,
                             stacklevel=2,
                         )
-                expand = ' '.join(
-                    format_lexicon_specifier(id, ver)
-                    for id, ver, _id in deps
+                # installed dependencies are known by their rowid; going
+                # through specifiers would reinterpret versions with
+                # spaces or pattern characters
+                self._expanded = tuple(
+                    _to_lexicon(get_lexicon(_id))
+                    for _, _, _id in deps
                     if _id is not None
                 )
+                expand = ''
         if expand:
             self._expanded = tuple(map(_to_lexicon, find_lexicons(lexicon=expand)))
         self._expanded_ids: tuple[int, ...] = tuple(lx._id for lx in self._expanded)
